@@ -260,6 +260,8 @@ def run(ctx):
     rule_no_held_iterator(ctx)
     scope.rule_memo_scope_free(ctx, "R7.6")
     scope.rule_lazy_inside_scope(ctx, "R7.8")
+    scope.rule_no_parked_iterators(ctx, "R7.9")
+    scope.rule_scope_entered(ctx, "R7.10")
     # R7.7: store keys are URIs up to an empty fragment and nothing coarser: a coarser key serves the document retrieved for one
     # URI to a later reference to another (history dependence)
     from .c15 import rule_uridict
